@@ -1,6 +1,5 @@
 """C45 — background generation pauses while a protocol runs."""
 META = {
-    "disabled": True,
     "level": "model_checking",
     "text": "TLC exhaustively checks a model of generator.Scheduler and ProtocolLatch in which one checkProtocols call is a sequence of "
             "individual IsExecuting reads interleaved with Lock/Unlock (nested, several latches), RegisterProtocol, compute and worker "
@@ -44,4 +43,17 @@ def run(ctx):
             ctx.broken("replay never exercised: %s" % missing)
         if cnt.get("behaviours_completed", 0) < ctx.pick(80, 1200):
             ctx.broken("replay completed only %d behaviours" % cnt.get("behaviours_completed", 0))
-    return ctx.finish(level="model_checking", rule="TODO", assumptions=["TODO"], exhaustive=False)
+    return ctx.finish(
+        level="model_checking",
+        rule="TLC explores every interleaving of the scheduler model within the bounds of %s (2 latches nested to depth 2, %s), "
+             "with one checkProtocols call split into its individual IsExecuting reads, plus the liveness properties under fairness "
+             "of the periodic check. Conformance: seeded random behaviours of the same model (3 latches, 2 worker functions, 40 steps) "
+             "are forced on the real Scheduler/ProtocolLatch; the check is parked inside every IsExecuting call so that Lock/Unlock/"
+             "compute interleave with its reads exactly as in the behaviour; the full state is compared after every step; "
+             "non-trivial = behaviours containing at least one check." % (
+                 cfg, ctx.pick("1 worker function, 3 goroutines", "2 worker functions, 5 goroutines")),
+        assumptions=["checkProtocols is invoked directly instead of by the 1 s ticker goroutine of StartScheduler",
+                     "a cancellation arriving between a worker goroutine's loop-head test and the call of the worker function "
+                     "cannot be forced on the real code (the model explores it, the replay does not)",
+                     "worker functions honour their context (the harness' functions return only when released)"],
+        exhaustive=False)
